@@ -398,3 +398,14 @@ func Pick(t *rapid.T, n int, label string) int {
 func From[T any](t *rapid.T, s []T, label string) T {
 	return s[Pick(t, len(s), label)]
 }
+
+// Bits draws an n-bit uniform integer from fair coin flips.
+func Bits(t *rapid.T, n int, label string) int {
+	v := 0
+	for i := 0; i < n; i++ {
+		if rapid.Bool().Draw(t, label) {
+			v |= 1 << i
+		}
+	}
+	return v
+}
